@@ -16,6 +16,10 @@ for pid in ALL:
         "evidence_file": "/verif/evidence/%s.json" % pid,
         "replay_cmd_template": "./check %s --replay {path}" % pid,
         "engine": "coq-model+correspondence",
+        "technique": ("machine-checked proof in Coq 8.16.1: theorems over an executable Gallina model, closed under the global context; "
+                      "the model is tied to /repo on every run by tables regenerated from the source (gen)"
+                      + (", by Gallina definitions regenerated from the Go source text and proved equal to the model (genfn)" if c.get("source_level") else "")
+                      + " and by a correspondence check that evaluates the model (vm_compute) on the inputs the implementation was run on"),
         "level_claimed": {
             "category": "proof",
             "text": c.get("level_text", "Theorems in coq/Properties/%s.v about the Gallina model, closed under the global context; model tied to /repo by generated tables and a correspondence run on every check" % pid),
@@ -35,7 +39,7 @@ m = {
         "source_commits": json.load(open(os.path.join(os.path.dirname(os.path.abspath(__file__)), "hooks.json")))["source_commits"],
         "add_only": True,
     },
-    "engines": [{"name": "coq-model+correspondence", "path": "/verif/coq + /verif/harness + /verif/gen",
+    "engines": [{"name": "coq-model+correspondence", "path": "/verif/coq + /verif/harness + /verif/gen + /verif/genfn",
                  "serves_properties": [c["property_id"] for c in checks],
                  "kind_free_text": "Coq 8.16.1 development (models, proofs, property theorems), Go translator of source tables, Go correspondence harness"}],
     "checks": checks,
